@@ -11,6 +11,7 @@ import (
 	"github.com/cloudflare/circl/internal/zzverif/lib"
 	"github.com/cloudflare/circl/oprf"
 	"github.com/cloudflare/circl/ot/simot"
+	"github.com/cloudflare/circl/zk/dl"
 	"github.com/cloudflare/circl/zk/qndleq"
 )
 
@@ -254,6 +255,72 @@ func TestVerifOPRFSharedServer(t *testing.T) {
 				wg.Wait()
 			}
 			lib.CaseS("shared-server", su.Identifier(), md.name)
+		}
+	}
+}
+
+// TestVerifDLAdaptive: adaptive forgeries against the Schnorr proof of
+// knowledge (zk/dl).  The Fiat-Shamir challenge has to bind EVERY element of
+// the statement.  The forger takes the challenge c the implementation itself
+// uses for (V, A) - extracted from an honest proof made with known commitment
+// randomness, c = (v - r)/k - keeps V, picks a fresh response r' and SOLVES the
+// verification equation for one statement element: the base G' = [1/r'](V -
+// [c]A), or the public value A' = [1/c](V - [r']G).  If the challenge did not
+// depend on that element the proof (V, r') verifies for a statement nobody
+// proved.  (ristretto255 draws the commitment from crypto/rand whatever reader
+// is supplied, so its v is unknown to the forger: P-curves only.)
+func TestVerifDLAdaptive(t *testing.T) {
+	const mon = "TestVerifDLAdaptive"
+	lib.Mandatory("dl:adaptive-forgery-tried", "dl:adaptive-forgery-rejected")
+	for _, gr := range groups {
+		if gr.le {
+			continue
+		}
+		g := gr.g
+		for i := 0; i < lib.Scale(6, 60); i++ {
+			r := lib.NewRng("c16/dl-adaptive/"+gr.name, i)
+			G := g.Generator().Copy()
+			if i%2 == 1 {
+				G = gr.randElement(r)
+			}
+			k := gr.randScalar(r)
+			A := g.NewElement().Mul(G, k)
+			uid, oi := r.Bytes(r.Intn(20)), r.Bytes(r.Intn(20))
+			seed := r.Bytes(32)
+			pr := dl.Prove(g, G, A, k, uid, oi, lib.NewRng("c16/dl-adaptive/v/"+string(seed), 0))
+			v := g.RandomNonZeroScalar(lib.NewRng("c16/dl-adaptive/v/"+string(seed), 0))
+			if !g.NewElement().Mul(G, v).IsEqual(pr.V) {
+				lib.Count("dl:commitment-randomness-not-replayable")
+				continue
+			}
+			// c = (v - r)/k
+			c := g.NewScalar().Sub(v, pr.R)
+			c.Mul(c, g.NewScalar().Inv(k))
+			if c.IsZero() {
+				continue
+			}
+			rp := gr.randScalar(r)
+			cA := g.NewElement().Mul(A, c)
+			// --- forged base
+			Gf := g.NewElement().Add(pr.V, g.NewElement().Neg(cA))
+			Gf.Mul(Gf, g.NewScalar().Inv(rp))
+			lib.Count("dl:adaptive-forgery-tried")
+			lib.CaseS("dl-adaptive", gr.name, "base")
+			if ok, _ := tryBool("dl.Verify:forged-base", nil, func() bool { return dl.Verify(g, Gf, A, dl.Proof{V: pr.V, R: rp}, uid, oi) }); ok {
+				lib.Violation("C16:forge:dl.Verify:challenge-does-not-bind-the-base", mon, lib.D("group", gr.name, "G", mustElt(Gf), "A", mustElt(A), "V", mustElt(pr.V), "R", mustScl(rp)))
+			} else {
+				lib.Count("dl:adaptive-forgery-rejected")
+			}
+			// --- forged public value
+			rG := g.NewElement().Mul(G, rp)
+			Af := g.NewElement().Add(pr.V, g.NewElement().Neg(rG))
+			Af.Mul(Af, g.NewScalar().Inv(c))
+			lib.Count("dl:adaptive-forgery-tried")
+			if ok, _ := tryBool("dl.Verify:forged-public-value", nil, func() bool { return dl.Verify(g, G, Af, dl.Proof{V: pr.V, R: rp}, uid, oi) }); ok {
+				lib.Violation("C16:forge:dl.Verify:challenge-does-not-bind-the-public-value", mon, lib.D("group", gr.name, "G", mustElt(G), "A", mustElt(Af), "V", mustElt(pr.V), "R", mustScl(rp)))
+			} else {
+				lib.Count("dl:adaptive-forgery-rejected")
+			}
 		}
 	}
 }
